@@ -264,7 +264,7 @@ func (rn *runner) emitSite(st *site, res siteResult) {
 	for _, r := range res.recovered {
 		note("recoveries", def.Label+"."+r)
 	}
-	if st.Idx%97 == 3 {
+	if st.Idx%97 == 3 || os.Getenv("VERIF_ONLY") != "" {
 		rec.Sample = map[string]any{"case_id": caseID(def, st.Idx), "faulted_op": o.String(), "site": st, "outcome": res.outcome, "recoveries": res.recovered}
 	}
 	emit(rec)
